@@ -163,17 +163,26 @@ def radius_guards(ctx, p, fn):
         n = next(iter(terms))
         if n[0] != 'binop' or n[1] not in ('Lt', 'Le', 'Gt', 'Ge'):
             continue
-        a, c = n[2], n[3]
-        if n[1] in ('Gt', 'Ge'):
-            a, c = c, a
+        # normalise to  a OP c : the accepting ("inside the radius") edge is the true edge of `d < R` / `d <= R` / `R > d` /
+        # `R >= d`, and the false edge of the skip forms `d >= R` / `d > R` / `R <= d` / `R < d`.  `strict` says whether a
+        # distance equal to the radius is left out.
+        a, c, op = n[2], n[3], n[1]
+        if op in ('Gt', 'Ge'):
+            a, c, op = c, a, {'Gt': 'Lt', 'Ge': 'Le'}[op]
+        inside_edge, strict = (b, other), op == 'Lt'
         name = is_pub_param_field(ctx, p, fn, c)
         if name is None:
-            continue
+            # the skip form: R < d / R <= d, continue on the true edge
+            name = is_pub_param_field(ctx, p, fn, a)
+            if name is None:
+                continue
+            a, c = c, a
+            inside_edge, strict = (b, tmap['0']), op == 'Le'
         if not a or not all(d[0] == 'call' and d[1] == DISTANCE and len(d[2]) == 3 for d in a):
             continue
         frm = frozenset().union(*[d[2][1] for d in a])
         to = frozenset().union(*[d[2][2] for d in a])
-        out.append({'fn': fn, 'from': frm, 'to': to, 'true_edges': {(b, other)}, 'R': name, 'block': b})
+        out.append({'fn': fn, 'from': frm, 'to': to, 'true_edges': {inside_edge}, 'R': name, 'block': b, 'strict': strict})
     return out
 
 
